@@ -55,17 +55,18 @@ class Report:
 
     # -- rule bookkeeping --------------------------------------------------------------
     def rule(self, rid: str, text: str, floor: int = 1, exhaustive: bool = False):
-        self.rules[rid] = {"text": text, "floor": floor, "instances": 0, "nontrivial": set(),
+        self.rules[rid] = {"text": text, "floor": floor, "instances": 0, "nontrivial": set(), "nontrivial_extra": 0,
                            "samples": [], "exhaustive": exhaustive}
         return rid
 
-    def ok(self, rid: str, n: int = 1, nontrivial=None, sample=None):
+    def ok(self, rid: str, n: int = 1, nontrivial=None, sample=None, distinct: int = 0):
         """Record n discharged instances of rule rid. `nontrivial` is a hashable identifying a
         distinct construct that could have failed (counted once)."""
         r = self.rules[rid]
         r["instances"] += n
         if nontrivial is not None:
             r["nontrivial"].add(nontrivial)
+        r["nontrivial_extra"] += distinct      # bulk-counted distinct instances (each counted once by the caller)
         if sample is not None and len(r["samples"]) < 3:
             r["samples"].append(sample)
 
@@ -121,7 +122,7 @@ class Report:
             for k, v in self.analysed.items():
                 print(f"analysed {k}: {v}")
             for rid, r in self.rules.items():
-                print(f"rule {rid}: {r['instances']} instance(s), {len(r['nontrivial'])} distinct non-trivial  -- {r['text']}")
+                print(f"rule {rid}: {r['instances']} instance(s), {len(r['nontrivial']) + r['nontrivial_extra']} distinct non-trivial  -- {r['text']}")
             for n in self.notes:
                 print(f"note: {n}")
             for f in listed:
@@ -135,7 +136,7 @@ class Report:
 
     def write_evidence(self, wall, n_new, n_listed):
         obligations = sum(r["instances"] for r in self.rules.values())
-        nontrivial = sum(len(r["nontrivial"]) for r in self.rules.values())
+        nontrivial = sum(len(r["nontrivial"]) + r["nontrivial_extra"] for r in self.rules.values())
         samples = []
         for rid, r in self.rules.items():
             for s in r["samples"][:2]:
@@ -163,7 +164,7 @@ class Report:
                 "exhaustive": all(r["exhaustive"] for r in self.rules.values()) if self.rules else False,
                 "trusted_base": [f"{k}: {TRUSTED_BASE[k]}" for k in self.trusted],
                 "rules": {rid: {"text": r["text"], "instances": r["instances"],
-                                "distinct_nontrivial": len(r["nontrivial"]), "floor": r["floor"],
+                                "distinct_nontrivial": len(r["nontrivial"]) + r["nontrivial_extra"], "floor": r["floor"],
                                 "exhaustive_over_finite_domain": r["exhaustive"]} for rid, r in self.rules.items()},
                 "analysed": self.analysed,
                 "notes": self.notes,
